@@ -18,7 +18,9 @@ import (
 func hostileCrits(r *gen.Rng, f, g string) []*model.Crit {
 	lit := func(v any) model.Operand { return model.L(v) }
 	eq := func(fl string, v any) *model.Crit { return model.Cmp(model.OpEq, fl, lit(v)) }
-	in := func(fl string, vs ...model.Operand) *model.Crit { return &model.Crit{Op: model.OpIn, Field: fl, Args: vs} }
+	in := func(fl string, vs ...model.Operand) *model.Crit {
+		return &model.Crit{Op: model.OpIn, Field: fl, Args: vs}
+	}
 	contains := func(fl string, vs ...model.Operand) *model.Crit {
 		return &model.Crit{Op: model.OpContains, Field: fl, Args: vs}
 	}
@@ -162,10 +164,18 @@ func RunSweep(c *core.Ctx) {
 		func(q *model.Query) { q.HasSkip, q.Skip, q.HasLimit, q.Limit = true, -3, true, -1 },
 		func(q *model.Query) { q.Sorted = true },
 		func(q *model.Query) { q.Sorted, q.Sort = true, []model.SortOpt{{Field: "a", Dir: -1}} },
-		func(q *model.Query) { q.Sorted, q.Sort = true, []model.SortOpt{{Field: "a", Dir: 1}}; q.HasLimit, q.Limit = true, 3 },
-		func(q *model.Query) { q.Sorted, q.Sort = true, []model.SortOpt{{Field: "nope", Dir: 0}, {Field: "arr", Dir: -1}} },
+		func(q *model.Query) {
+			q.Sorted, q.Sort = true, []model.SortOpt{{Field: "a", Dir: 1}}
+			q.HasLimit, q.Limit = true, 3
+		},
+		func(q *model.Query) {
+			q.Sorted, q.Sort = true, []model.SortOpt{{Field: "nope", Dir: 0}, {Field: "arr", Dir: -1}}
+		},
 		func(q *model.Query) { q.Sorted, q.Sort = true, []model.SortOpt{{Field: "", Dir: 1}} },
-		func(q *model.Query) { q.Sorted, q.Sort = true, []model.SortOpt{{Field: "b", Dir: -1}}; q.HasSkip, q.Skip = true, 1 },
+		func(q *model.Query) {
+			q.Sorted, q.Sort = true, []model.SortOpt{{Field: "b", Dir: -1}}
+			q.HasSkip, q.Skip = true, 1
+		},
 	}
 	crits := hostileCrits(r, "a", "b")
 	for ci, cr := range crits {
